@@ -58,6 +58,9 @@ def make_module():
         m.log.append(ev)
         for h in list(m.pre_hooks):
             h(ev)
+        if ev["file_closed"]:
+            # what the real binding does with a closed file object: file.fileno() refuses it, nothing reaches the kernel
+            raise ValueError("I/O operation on closed file")
         status, sense = GOOD, None
         if m.handler is not None:
             status, sense = m.handler(ev)
